@@ -6,14 +6,15 @@ Obs == JsonDeserialize(IOEnv.VERIF_OBS)
 \* (TLC does not cache Obs -- it would re-read the file at every use -- so the records are enumerated once, as a set, and
 \* the record itself is the state; Rec.idx is its index in the harness's list)
 VARIABLES Rec, expj, expx
-ModelOf(o) == IF o.pa = 0 THEN FixedModels[o.mi] ELSE ParamModel(o.pa, o.pb)
+ModelOf(o) == IF o.pa = 0 THEN (FixedModels \o DoubtfulModels)[o.mi] ELSE ParamModel(o.pa, o.pb)
 Init1(o, m) == expj = ToJ(m, o.x) /\ expx = ToX(m, o.x)
 Init == Rec \in ToSet(Obs) /\ Init1(Rec, ModelOf(Rec))
 Next == UNCHANGED <<Rec, expj, expx>>
 Accepted(v) == [o |-> "accepted", v |-> v]
 
 \* the generator produced an importable SDK for the (accepted) meta-model and the instance could be built through it
-Inv_SdkGenerated == Rec.sdk /\ Rec.built
+\* (a meta-model the front end refuses leaves the property's antecedent false)
+Inv_SdkGenerated == Rec.accepted => Rec.sdk /\ Rec.built
 \* JSON
 Inv_JsonForm == Rec.built => Rec.jo = "ok" /\ Rec.j = expj
 Inv_JsonRoundTrip == Rec.built /\ Rec.jo = "ok" => Rec.rtj = Accepted(Rec.x)
